@@ -65,6 +65,8 @@ class C01(Check):
         t = {"kids": [], "m": {}}
         for i in range(13):
             t = {"kids": [t, {"kids": [], "m": {"x": None}}], "m": {"k": t if i % 2 else None}}
+        yield {"schema": ["null", {"type": "record", "name": "AllDef", "fields": [{"name": "a", "type": "int", "default": 0}]}, "string"], "data": [{}, None, "s"], "parsed": False}
+        yield {"schema": {"type": "record", "name": "H", "fields": [{"name": "u", "type": ["int", {"type": "record", "name": "NoFields", "fields": []}]}]}, "data": [{"u": {}}, {"u": 1}], "parsed": True}
         for parsed in (False, True):
             yield {"schema": ll, "data": [node, {"v": -1}], "parsed": parsed}
             yield {"schema": tree, "data": [t], "parsed": parsed}
